@@ -8,6 +8,7 @@ pub assume_specification [isize::saturating_add] (a: isize, b: isize) -> (r: isi
 //@ include prelude/error.rs
 //@ include prelude/runtime.rs
 //@ include prelude/value.rs
+//@ include prelude/expr.rs
 use std::cmp;
 
 /// derive(FilterParameters) output for SliceArgs (generated code, assumed)
@@ -86,6 +87,88 @@ impl SliceFilter {
 }
 
 // ---------------- size ----------------
+// ---------------- append / prepend ----------------
+impl KStringCow {
+    #[verifier::external_body]
+    pub fn into_string(self) -> (r: String) ensures r@ == self.chars_view() { unimplemented!() }
+    #[verifier::external_body]
+    pub fn as_str(&self) -> (r: &str) ensures r@ == self.chars_view() { unimplemented!() }
+}
+/// derive(FilterParameters) output for AppendArgs / PrependArgs (generated code, assumed): the argument as text
+pub struct AppendArgs { pub string_e: u8 }
+pub struct PrependArgs { pub string_e: u8 }
+pub struct EvaluatedStringArgs { pub string: KStringCow }
+pub uninterp spec fn append_arg(a: &AppendArgs, rt: &dyn Runtime) -> Option<Seq<char>>;
+pub uninterp spec fn prepend_arg(a: &PrependArgs, rt: &dyn Runtime) -> Option<Seq<char>>;
+impl AppendArgs {
+    #[verifier::external_body]
+    pub fn evaluate(&self, runtime: &dyn Runtime) -> (r: Result<EvaluatedStringArgs>)
+        ensures r matches Ok(e) ==> append_arg(self, runtime) == Some(e.string.chars_view()), r is Err ==> append_arg(self, runtime) is None
+    { unimplemented!() }
+}
+impl PrependArgs {
+    #[verifier::external_body]
+    pub fn evaluate(&self, runtime: &dyn Runtime) -> (r: Result<EvaluatedStringArgs>)
+        ensures r matches Ok(e) ==> prepend_arg(self, runtime) == Some(e.string.chars_view()), r is Err ==> prepend_arg(self, runtime) is None
+    { unimplemented!() }
+}
+pub struct AppendFilter { pub args: AppendArgs }
+pub struct PrependFilter { pub args: PrependArgs }
+impl AppendFilter {
+//@ item crates/lib/src/stdlib/filters/string/operate.rs :: impl Filter for AppendFilter::evaluate
+//@ props C13 C02
+//@ sig fn evaluate(&self, input: &dyn ValueView, runtime: &dyn Runtime) -> (res: Result<Value>)
+//@ spec
+    ensures
+        res matches Ok(v) ==> (append_arg(&self.args, runtime) matches Some(a) && v.str_chars() == Some(input.kstr_of().chars_view() + a)),   // [C13:append_is_input_then_argument]
+        res is Err ==> append_arg(&self.args, runtime) is None,
+//@ end
+}
+impl PrependFilter {
+//@ item crates/lib/src/stdlib/filters/string/operate.rs :: impl Filter for PrependFilter::evaluate
+//@ props C13 C02
+//@ sig fn evaluate(&self, input: &dyn ValueView, runtime: &dyn Runtime) -> (res: Result<Value>)
+//@ spec
+    ensures
+        res matches Ok(v) ==> (prepend_arg(&self.args, runtime) matches Some(a) && v.str_chars() == Some(a + input.kstr_of().chars_view())),  // [C13:prepend_is_argument_then_input]
+        res is Err ==> prepend_arg(&self.args, runtime) is None,
+//@ end
+}
+
+// ---------------- default ----------------
+/// `query_state` on a view (extension trait: the prelude trait has no state query)
+pub trait QueryState { spec fn state_of(&self, s: State) -> bool; fn query_state(&self, state: State) -> (r: bool) ensures r == self.state_of(state); }
+pub uninterp spec fn vid_state(v: VId, s: State) -> bool;
+impl QueryState for &dyn ValueView {
+    open spec fn state_of(&self, s: State) -> bool { vid_state(self.vid_of(), s) }
+    #[verifier::external_body]
+    fn query_state(&self, state: State) -> (r: bool) { unimplemented!() }
+}
+/// derive(FilterParameters) output for DefaultArgs (generated code, assumed)
+pub struct DefaultArgs { pub default_e: u8 }
+pub struct EvaluatedDefaultArgs { pub default: ValueCow }
+pub uninterp spec fn default_arg(a: &DefaultArgs, rt: &dyn Runtime) -> Option<VId>;
+impl DefaultArgs {
+    #[verifier::external_body]
+    pub fn evaluate(&self, runtime: &dyn Runtime) -> (r: Result<EvaluatedDefaultArgs>)
+        ensures r matches Ok(e) ==> default_arg(self, runtime) == Some(e.default.vid()),
+                r is Err ==> default_arg(self, runtime) is None
+    { unimplemented!() }
+}
+pub struct DefaultFilter { pub args: DefaultArgs }
+impl DefaultFilter {
+//@ item crates/lib/src/stdlib/filters/mod.rs :: impl Filter for DefaultFilter::evaluate
+//@ props C13 C02
+//@ sig fn evaluate(&self, input: &dyn ValueView, runtime: &dyn Runtime) -> (res: Result<Value>)
+//@ spec
+    ensures
+        // the input itself unless it is nil / false / empty (its DefaultValue state), then the argument
+        res matches Ok(v) ==> (default_arg(&self.args, runtime) matches Some(d) &&
+            v.vid() == (if vid_state(input.vid_of(), State::DefaultValue) { d } else { input.vid_of() })),          // [C13:default_replaces_exactly_the_default_state_inputs]
+        res is Err ==> default_arg(&self.args, runtime) is None,                                                    // [C13:default_fails_only_if_its_argument_fails]
+//@ end
+}
+
 pub struct SizeFilter;
 impl SizeFilter {
 //@ item crates/lib/src/stdlib/filters/mod.rs :: impl Filter for SizeFilter::evaluate
